@@ -246,7 +246,7 @@ class AmountRenderer(ColumnRenderer):
             self.curwidth = max(self.curwidth, len(value.currency))
 
     def prepare(self):
-        self.func = self.dcontext.build(display_context.Align.DOT)
+        self.func = self.dcontext.build(display_context.Align.DOT, display_context.Precision.MAXIMUM)
         zero = Decimal()
         for commodity in self.dcontext.ccontexts:
             if commodity != '__default__':
